@@ -737,6 +737,115 @@ theorem design_matrix_same_data [HasSqrt K] (p : Params K) (cv : List Nat)
     rw [ofLists_toLists _ _ _ _ _ ho hl]
   simp only [simDataset, dataOf, hn, mmulBy_design, hz]
 
+/-! ### reuse sessions (round 4): state that survives a call
+
+The objects handed to `make_dataset` (model, theta, condition vector / design matrix, covariance
+matrices) may be handed in again, edited by the caller in between, and the module could keep
+something between calls.  `Rsa.Sim.runSession` runs a list of steps through the model with that
+state explicit — content of the arguments plus an arbitrary module state, both touched by a call
+exactly when today's source has a statement that can do so (leaves `inputWrites`,
+`moduleState`).  The theorems below say that nothing survives a call. -/
+
+section sessions
+variable [HasSqrt K] {σ : Type}
+
+/-- today's `simulation/sim.py`, `indicator` / `centering` and the models' `predict` contain no
+    statement that stores into (a view of) an argument or into `self` (leaf `inputWrites`) -/
+theorem inputs_not_written : Rsa.Gen.C18.inputWrites = 0 := by decide
+
+/-- … and no place to keep something between calls: no module-level statement besides imports and
+    function definitions, no `global`, no decorator, no mutable default, no store through a
+    non-local name (leaf `moduleState`) -/
+theorem no_module_state : Rsa.Gen.C18.moduleState = 0 := by decide
+
+/-- one call, whatever a write statement or a module cache *would* do (`h` arbitrary): the value
+    is that of the stand-alone call on the current content, and the content and the module state
+    are left as they were -/
+theorem call_stateless (h : Hidden σ K) (c : SimCall K) (st : σ × SimArgs K) :
+    stepCall h c st = (c.value st.2, st) := by
+  unfold stepCall
+  rw [if_pos no_module_state, if_pos no_module_state, if_pos inputs_not_written]
+
+/-- **reuse sessions**: any list of calls and caller edits, run in one process on the same
+    objects from any module state: every call returns exactly what the stand-alone call returns
+    on the content the caller has established at that moment (`specSession`), the module state
+    ends as it began and the objects hold what the caller's own edits put there — by induction
+    over the step list -/
+theorem session_calls_independent (h : Hidden σ K) (steps : List (SimStep K)) (s0 : σ)
+    (a0 : SimArgs K) :
+    runSession h steps (s0, a0) = ((specSession steps a0).1, (s0, (specSession steps a0).2)) := by
+  induction steps generalizing a0 with
+  | nil => rfl
+  | cons st rest ih =>
+    cases st with
+    | call c => simp only [runSession, specSession, call_stateless, ih]
+    | edit f => simp only [runSession, specSession, ih]
+
+/-- without caller edits: every call of the session has the value of the stand-alone call on the
+    ORIGINAL content, and the content is unchanged at the end -/
+theorem session_calls_only (h : Hidden σ K) (calls : List (SimCall K)) (s0 : σ) (a0 : SimArgs K) :
+    runSession h (calls.map SimStep.call) (s0, a0) = (calls.map (fun c => c.value a0), (s0, a0)) := by
+  rw [session_calls_independent]
+  have : ∀ cs : List (SimCall K), specSession (cs.map SimStep.call) a0
+      = (cs.map (fun c => c.value a0), a0) := by
+    intro cs
+    induction cs with
+    | nil => rfl
+    | cons c cs ih => simp only [List.map_cons, specSession, ih]
+  rw [this]
+
+theorem specSession_append (pre post : List (SimStep K)) (a : SimArgs K) :
+    specSession (pre ++ post) a
+      = ((specSession pre a).1 ++ (specSession post (specSession pre a).2).1,
+         (specSession post (specSession pre a).2).2) := by
+  induction pre generalizing a with
+  | nil => rfl
+  | cons st rest ih =>
+    cases st with
+    | call c => simp only [List.cons_append, specSession, ih]
+    | edit f => simp only [List.cons_append, specSession, ih]
+
+/-- **every call of a session reproduces the model RDM of its own moment.**  A call anywhere in a
+    session (after any calls on the same objects and any caller edits `pre`, e.g. a new RDM written
+    into the model), with the exact-signal option, zero noise, a condition vector, no signal
+    covariance, `n_channel ≥ n_cond` and the two factor contracts: the session's result list is the
+    stand-alone results, and every dataset of this call has RDM by condition `signal · D` for the
+    RDM the model holds *at that moment* — not that of an earlier call
+    (`session_calls_independent` + `factor_contract_reproduces`) -/
+theorem session_call_reproduces (h : Hidden σ K) (pre post : List (SimStep K)) (c : SimCall K)
+    (s0 : σ) (a0 : SimArgs K) (cv : List Nat)
+    (hcv : (specSession pre a0).2.cond = .vec cv) (hS : (specSession pre a0).2.cholS = none)
+    (hex : c.exact = true)
+    (hcond : (uniqueSorted cv).length = c.nCond) (hle : c.nCond ≤ c.nCh) (hch : c.nCh ≠ 0)
+    (hs : HasSqrt.sqrt c.signal * HasSqrt.sqrt c.signal = c.signal)
+    (hn : HasSqrt.sqrt c.noise = 0)
+    (hF : ∀ a b, a < c.nCond → b < c.nCond →
+      gramRows c.nCond
+        (c.factor (gramOfRdm c.nCond (squareform c.nCond (specSession pre a0).2.rdm))) a b
+        = gramOfRdm c.nCond (squareform c.nCond (specSession pre a0).2.rdm) a b)
+    (hW : ∀ i, i < nSignalCalls c.same c.nSim → ∀ a b, a < c.nCond → b < c.nCond →
+      gramRows c.nCh (c.whiten i (rowCenter c.nCh (c.zs i))) a b
+        = if a = b then (c.nCh : K) else 0) :
+    (runSession h (pre ++ SimStep.call c :: post) (s0, a0)).1
+        = (specSession pre a0).1 ++ c.value (specSession pre a0).2
+            :: (specSession post (specSession pre a0).2).1 ∧
+    ∀ ds ∈ c.value (specSession pre a0).2,
+      rdmByCondition ds.nObs ds.nCh cv ds.data
+        = (Rsa.pairs c.nCond).map
+            (fun q => c.signal * squareform c.nCond (specSession pre a0).2.rdm q.1 q.2) := by
+  refine ⟨?_, ?_⟩
+  · rw [session_calls_independent, specSession_append]
+    simp only [specSession]
+  · unfold SimCall.value
+    rw [hcv, hS, hex]
+    exact factor_contract_reproduces
+      { nCond := c.nCond, nCh := c.nCh, nSim := c.nSim, signal := c.signal, noise := c.noise,
+        cholC := (specSession pre a0).2.cholC, cholT := (specSession pre a0).2.cholT,
+        same := c.same, modelName := c.modelName, theta := (specSession pre a0).2.theta }
+      cv (specSession pre a0).2.rdm _ c.zs c.noises c.whiten hcond hle hch hs hn hF hW
+
+end sessions
+
 /-! ### non-vacuity: concrete objects meeting the hypotheses above
     (3 conditions at the points 0, 1, 3 of a line, 4 channels, 2 partitions) -/
 
@@ -794,6 +903,36 @@ example : ∀ ds ∈ makeDatasets (α := ℚ)
     (by decide +kernel) (by decide) (by decide) (by decide +kernel) (by decide +kernel)
     (by intro a b ha hb; interval_cases a <;> interval_cases b <;> decide +kernel)
     (by intro i _ a b ha hb; interval_cases a <;> interval_cases b <;> decide +kernel)
+
+/-! non-vacuity of the session theorems: a model simulated, its RDM replaced by the caller, simulated
+    again — with a "module" that would hand every call the content of a *different* model and write
+    zeros into the arguments if the source had a statement to do so -/
+
+def exArgs : SimArgs ℚ :=
+  { rdm := [1, 9, 4], theta := none, cond := .vec (condVec 3 2), cholC := none, cholT := none,
+    cholS := none }
+def exCall : SimCall ℚ :=
+  { nCond := 3, nCh := 4, nSim := 2, signal := 4, noise := 0, exact := true, same := true,
+    modelName := "fixed-model", zs := fun i => fun _ _ => (i : ℚ), noises := fun _ => exW,
+    whiten := fun _ _ => exW, factor := fun _ => exC }
+def exHidden : Hidden Nat ℚ :=
+  { stale := fun _ a => { a with rdm := [2, 2, 2] }, remember := fun s _ => s + 1,
+    scribble := fun a => { a with rdm := [0, 0, 0] } }
+
+example : runSession exHidden [.call exCall, .edit (fun a => { a with rdm := [4, 36, 16] }), .call exCall]
+      (0, exArgs)
+    = ([exCall.value exArgs, exCall.value { exArgs with rdm := [4, 36, 16] }],
+       (0, { exArgs with rdm := [4, 36, 16] })) := by
+  rw [session_calls_independent]; rfl
+
+-- `session_call_reproduces`: the second call of the session [call, call] reproduces the RDM
+example := session_call_reproduces (K := ℚ) exHidden [.call exCall] [] exCall 0 exArgs (condVec 3 2)
+  rfl rfl rfl (by decide +kernel) (by decide) (by decide) (by decide +kernel) (by decide +kernel)
+  (by intro a b ha hb; replace ha : a < 3 := ha; replace hb : b < 3 := hb
+      interval_cases a <;> interval_cases b <;> decide +kernel)
+  (by intro i _ a b ha hb; replace ha : a < 3 := ha; replace hb : b < 3 := hb
+      change gramRows 4 exW a b = if a = b then ((4 : Nat) : ℚ) else 0
+      interval_cases a <;> interval_cases b <;> decide +kernel)
 
 end examples
 
